@@ -112,7 +112,7 @@ func C08(c *Ctx) {
 	}
 
 	const r4 = "K1.gc-delete-after-reinsert"
-	c.Rule(r4, "valueLog.rewrite: both deletion routes (removeValueLogFile, append to filesToBeDeleted) come after Manager.Iterate returned without error and after the flush loop; every batchSet error reaches an error return; re-inserted entries copy Key/Value/ExpiresAt from the scanned record")
+	c.Rule(r4, "valueLog.rewrite: both deletion routes (removeValueLogFile, append to filesToBeDeleted) come after Manager.Iterate returned without error and after the flush loop; every batchSet error reaches an error return; re-inserted entries copy Key/Value/ExpiresAt and the meta byte (pointer bit cleared) from the scanned record")
 	if fn := c.Fn("", "valueLog.rewrite"); fn != nil {
 		iter := need(c, r4, fn, false, "Manager.Iterate", Named("vlog.(*Manager).Iterate"), 1)
 		var targets []ssa.Instruction
@@ -607,7 +607,7 @@ func gcLiveness(c *Ctx, rule string, proc *ssa.Function) {
 				copied[f] = true
 			}
 		})
-		for _, f := range []string{"Key", "Value", "ExpiresAt"} {
+		for _, f := range []string{"Key", "Value", "ExpiresAt", "Meta"} {
 			c.Decide(copied[f], rule, key(proc, "reinsert."+f+"=scanned."+f), g.Pos(), 1, "copied from the scanned record", "re-inserted entry's "+f+" is not copied from the scanned record's "+f)
 		}
 	}
@@ -654,6 +654,11 @@ func valueFromParamField(v ssa.Value, p *ssa.Parameter, field string, depth int)
 		}
 	case *ssa.Slice:
 		return valueFromParamField(x.X, p, field, depth-1)
+	case *ssa.BinOp:
+		// the field with some bits masked (e.Meta &^ kv.BitValuePointer)
+		if x.Op == token.AND || x.Op == token.AND_NOT {
+			return valueFromParamField(x.X, p, field, depth-1)
+		}
 	case *ssa.Phi:
 		for _, e := range x.Edges {
 			if valueFromParamField(e, p, field, depth-1) {
